@@ -88,7 +88,9 @@ func (rl *ruleLoader) commentTextBegin(lex lexeme.LexEvent) {
 func (rl *ruleLoader) commentTextEnd(lex lexeme.LexEvent) {
 	switch lex.Type() {
 	case lexeme.InlineAnnotationTextEnd, lexeme.MultiLineAnnotationTextEnd:
-		if rl.node != nil {
+		// A note on a line without an example (after a closing bracket) belongs to no
+		// node: it is not the note of the last node of the lines before.
+		if rl.node != nil && rl.nodesPerCurrentLineCount != 0 {
 			rl.node.SetComment(lex.Value().TrimSpaces().String())
 		}
 		rl.stateFunc = rl.endOfLoading
